@@ -15,6 +15,7 @@ CONSTANTS Emit, Prop
 Docs == PoolCore
 X == Id(<<120>>)  A == Id(<<97>>)  B == Id(<<98>>)
 Fn(name, args) == <<Id(name), LP>> \o args \o <<RP>>
+Tied == Json(<<96,91,123,34,107,34,58,49,44,34,115,34,58,34,98,34,44,34,112,34,58,49,125,44,123,34,107,34,58,50,44,34,115,34,58,34,97,34,44,34,112,34,58,50,125,44,123,34,107,34,58,48,44,34,115,34,58,34,98,34,44,34,112,34,58,51,125,44,123,34,107,34,58,50,44,34,115,34,58,34,97,34,44,34,112,34,58,52,125,44,123,34,107,34,58,48,44,34,115,34,58,34,99,34,44,34,112,34,58,53,125,44,123,34,107,34,58,50,44,34,115,34,58,34,98,34,44,34,112,34,58,54,125,93,96>>)
 E1 == { <<X>>, <<X, LB, Star, RB, Dot, A>>, <<Star>>, Fn(<<108,101,110,103,116,104>>, <<X>>), <<Json(<<96,49,96>>), PlusT, Json(<<96,50,96>>)>>,
         Fn(<<116,111,95,110,117,109,98,101,114>>, <<Raw(<<39,53,39>>)>>), Fn(<<107,101,121,115>>, <<CurT>>), <<X, LB, IntT(<<48>>), RB>>, Fn(<<116,111,95,115,116,114,105,110,103>>, <<B>>),
         Fn(<<109,101,114,103,101>>, <<CurT, Comma, Json(<<96,123,34,122,34,58,91,49,93,125,96>>)>>), <<X, Filt, A, RB>>, <<LBr, Id(<<107>>), Colon, X, Comma, Id(<<110>>), Colon>> \o Fn(<<108,101,110,103,116,104>>, <<CurT>>) \o <<RBr>>,
@@ -27,12 +28,23 @@ E1 == { <<X>>, <<X, LB, Star, RB, Dot, A>>, <<Star>>, Fn(<<108,101,110,103,116,1
         Fn(<<116,111,95,110,117,109,98,101,114>>, <<Raw(<<39,46,53,39>>)>>), Fn(<<116,111,95,110,117,109,98,101,114>>, <<Raw(<<39,53,46,39>>)>>), Fn(<<116,111,95,110,117,109,98,101,114>>, <<Raw(<<39,49,101,53,48,48,48,39>>)>>), Fn(<<116,111,95,110,117,109,98,101,114>>, <<Raw(<<39,32,49,39>>)>>),
         Fn(<<116,111,95,110,117,109,98,101,114>>, <<Raw(<<39,78,97,78,39>>)>>), Fn(<<116,111,95,110,117,109,98,101,114>>, <<Raw(<<39,73,110,102,105,110,105,116,121,39>>)>>), Fn(<<116,111,95,110,117,109,98,101,114>>, <<Raw(<<39,45,105,110,102,39>>)>>),
         <<LB>> \o Fn(<<116,111,95,110,117,109,98,101,114>>, <<Raw(<<39,110,97,110,39>>)>>) \o <<Comma>> \o Fn(<<116,111,95,110,117,109,98,101,114>>, <<Raw(<<39,43,73,110,102,39>>)>>) \o <<RB>>,
-        Fn(<<109,97,112>>, <<AmpT>> \o Fn(<<108,101,110,103,116,104>>, Fn(<<116,111,95,97,114,114,97,121>>, <<CurT>>)) \o <<Comma>> \o Fn(<<116,111,95,97,114,114,97,121>>, <<X>>)) }
+        Fn(<<109,97,112>>, <<AmpT>> \o Fn(<<108,101,110,103,116,104>>, Fn(<<116,111,95,97,114,114,97,121>>, <<CurT>>)) \o <<Comma>> \o Fn(<<116,111,95,97,114,114,97,121>>, <<X>>)),
+        \* every function that builds or reorders an array, on an array with TIED keys and distinguishable elements
+        \* (what "the first" and "the last" of the result are is pinned by the stable order), so that a form
+        \* fused with the index or slice that follows a pipe is compared with the two-step evaluation
+        Fn(<<115,111,114,116,95,98,121>>, <<Tied, Comma, AmpT, Id(<<107>>)>>), Fn(<<115,111,114,116,95,98,121>>, <<Tied, Comma, AmpT, Id(<<115>>)>>),
+        Fn(<<114,101,118,101,114,115,101>>, <<Tied>>), Fn(<<115,111,114,116>>, <<Tied, LB, Star, RB, Dot, Id(<<107>>)>>), Fn(<<109,97,112>>, <<AmpT, Id(<<112>>), Comma, Tied>>),
+        Fn(<<109,97,120,95,98,121>>, <<Tied, Comma, AmpT, Id(<<107>>)>>), Fn(<<109,105,110,95,98,121>>, <<Tied, Comma, AmpT, Id(<<107>>)>>),
+        Fn(<<118,97,108,117,101,115>>, Fn(<<103,114,111,117,112,95,98,121>>, <<Tied, Comma, AmpT, Id(<<115>>)>>)), <<Tied>> \o <<Filt, Id(<<107>>), GtT, Json(<<96,48,96>>), RB>>,
+        <<Tied>> \o <<LB, Colon, Colon, IntT(<<45,49>>), RB>>, Fn(<<122,105,112>>, <<Tied, Comma, Tied>>), Fn(<<116,111,95,97,114,114,97,121>>, <<Tied>>), <<Tied>> \o <<LB, Star, RB>> }
 E2 == { <<CurT>>, <<LB, IntT(<<48>>), RB>>, <<LB, Star, RB>>, <<A>>, Fn(<<108,101,110,103,116,104>>, <<CurT>>), Fn(<<116,121,112,101>>, <<CurT>>),
         <<CurT, EqT, CurT>>, Fn(<<116,111,95,115,116,114,105,110,103>>, <<CurT>>), Fn(<<115,111,114,116>>, <<CurT>>), <<Flat>>, Fn(<<107,101,121,115>>, <<CurT>>),
         <<CurT, PlusT, Json(<<96,49,96>>)>>, <<LB, Star, RB, Dot, A>>, Fn(<<116,111,95,97,114,114,97,121>>, <<CurT>>), Fn(<<114,101,118,101,114,115,101>>, <<CurT>>),
         Fn(<<110,111,116,95,110,117,108,108>>, <<CurT, Comma, Json(<<96,49,96>>)>>), <<LB, IntT(<<45,49>>), RB, Dot, A>>, Fn(<<115,117,109>>, <<CurT>>), <<CurT, LtT, Json(<<96,51,96>>)>>,
-        <<Star>>, Fn(<<97,98,115>>, <<CurT>>), Fn(<<116,111,95,110,117,109,98,101,114>>, <<CurT>>), <<LB, Colon, Colon, IntT(<<45,49>>), RB>>, <<CurT, Filt, CurT, RB>> }
+        <<Star>>, Fn(<<97,98,115>>, <<CurT>>), Fn(<<116,111,95,110,117,109,98,101,114>>, <<CurT>>), <<LB, Colon, Colon, IntT(<<45,49>>), RB>>, <<CurT, Filt, CurT, RB>>,
+        <<LB, IntT(<<45,49>>), RB>>, <<LB, IntT(<<49>>), RB>>, <<LB, IntT(<<45,50>>), RB>>, <<LB, IntT(<<48>>), RB, Dot, Id(<<112>>)>>, <<LB, IntT(<<45,49>>), RB, Dot, Id(<<112>>)>>,
+        <<LB, IntT(<<49>>), Colon, RB>>, <<LB, Colon, IntT(<<49>>), RB>>, <<LB, IntT(<<45,49>>), Colon, RB>>, <<LB, Star, RB, Dot, Id(<<112>>)>>,
+        Fn(<<108,101,110,103,116,104>>, <<CurT>>) \o <<EqT, Json(<<96,54,96>>)>>, <<LB, Filt, Id(<<107>>), EqT, Json(<<96,50,96>>), RB, RB>>, <<Filt, Id(<<107>>), EqT, Json(<<96,50,96>>), RB, PipeT, LB, IntT(<<48>>), RB>> }
 Pairs == SetToSeq(E1 \X E2)
 VARIABLES bucket, idx
 NB == 64
@@ -44,7 +56,9 @@ Check == idx > 0 =>
   LET e1 == Pairs[idx][1]  e2 == Pairs[idx][2]
       piped == <<LP>> \o e1 \o <<RP, PipeT, LP>> \o e2 \o <<RP>>
       adms == [d \in 1..Len(Docs) |-> Admissible(piped, Docs[d])]
-      case == [p |-> Prop, kind |-> "pipe2", expr |-> Render(e1), expr2 |-> Render(e2), expr3 |-> Render(piped),
+      \* (neither text contains a pipe or anything that binds looser, so the parentheses are redundant)
+      bare == e1 \o <<PipeT>> \o e2
+      case == [p |-> Prop, kind |-> "pipe2", expr |-> Render(e1), expr2 |-> Render(e2), expr3 |-> Render(piped), expr4 |-> Render(bare),
                pool |-> "Core", adms |-> adms]
   IN /\ Emit => PrintT("CASE " \o ToJson(case))
      \* the pipe law holds in the specification: evaluating e2 on the value of e1
@@ -54,4 +68,5 @@ Check == idx > 0 =>
                   (c1.ok /\ c2.ok /\ cp.ok /\ IsVal(v1)) =>
                       Eval(c2.n, v1, v1, EmptyEnv) = OutcomeOf(cp, Docs[d]), "PipeLaw")
      /\ Named(\A d \in 1..Len(Docs) : \A o \in adms[d] : IsVal(o) => IsJValue(o), "Closed")
+     /\ Named(\A d \in 1..Len(Docs) : Admissible(bare, Docs[d]) = adms[d], "ParenthesesRedundant")
 =============================================================================
